@@ -31,6 +31,10 @@ def strip_abs(e: ast.AST):
 
 def reduction(e: ast.AST) -> Optional[RangeTerm]:
     """Recognise torch.max(X) / X.max() / torch.amax(X, dim=D, keepdim=K) / amin."""
+    # wrappers that keep the values of a reduction of X: layout / graph membership / device, and a cast to X's own dtype or device
+    while isinstance(e, ast.Call) and isinstance(e.func, ast.Attribute) and not e.keywords and (
+            (e.func.attr in ("contiguous", "detach", "clone") and not e.args) or (e.func.attr == "to" and len(e.args) == 1 and U(e.args[0]).endswith((".dtype", ".device")))):
+        e = e.func.value
     if not (isinstance(e, ast.Call) and isinstance(e.func, ast.Attribute)):
         return None
     name = e.func.attr
@@ -97,6 +101,8 @@ def fold_dims(dim_expr: ast.AST, ndim: int, axis, base_name: str = "base"):
                 return list(ev(e.args[0]))
             if f == "tuple" and len(e.args) == 1:
                 return list(ev(e.args[0]))
+            if f in ("int",) and len(e.args) == 1:
+                return ev(e.args[0])
             if f == "range":
                 return list(range(*[ev(a) for a in e.args]))
             if f == "len" and len(e.args) == 1:
